@@ -30,3 +30,24 @@ Theorem exit_status_table : forall o,
   (forall c, (0 <= c < 256)%Z -> exit_code o (Halted c) = c) /\ exit_code o WriteError = 2%Z.
 Proof. exact exit_code_table. Qed.
 Print Assumptions exit_status_table.
+
+(** option parsing (Cli/Args.v mirrors Cli::parse): -j joins outputs and selects raw output only when no output
+    format was chosen before it; later format options override earlier ones *)
+From JaqV Require Import Cli.Args.
+From Coq Require Import Strings.String Strings.Ascii.
+
+Theorem join_keeps_earlier_format : forall c f, c_to c = Some f ->
+  option_map c_to (short c "j"%char) = Some (Some f) /\ option_map c_join (short c "j"%char) = Some true.
+Proof. intros c f H. cbn. rewrite H. split; reflexivity. Qed.
+Print Assumptions join_keeps_earlier_format.
+
+Theorem join_defaults_to_raw : forall c, c_to c = None -> option_map c_to (short c "j"%char) = Some (Some FRaw).
+Proof. intros c H. cbn. rewrite H. reflexivity. Qed.
+Print Assumptions join_defaults_to_raw.
+
+Example args_example :
+  match parse_cli ["--raw-output0"; "-cj"; "."; "f1"; "--args"; "a"]%string with
+  | inl c => (c_to c, c_join c, c_compact c, c_filter c, c_files c, c_args c) = (Some FRaw0, true, true, Some "."%string, ["f1"%string], ["a"%string])
+  | inr _ => False
+  end.
+Proof. reflexivity. Qed.
